@@ -1093,191 +1093,183 @@ def execute (u : List Site) (e : Env) : Outcome Unit := do
   senderState e true
   if e.tx.type == 1 then execGov u e else execOther e
 
-/-! ### The site table (tie T) -/
+/-! ### The table of partial operations (tie T)
 
-/-- How an inventory entry of `Aergo.Gen.AssertSites.sites` is accounted for. -/
-inductive SiteClass
-  | trap (s : Site)    -- carried by the model as the explicit trap `s`
-  | dom (s : Site)     -- same operand and index as trap `s`, in a branch that `s` (or its guard) dominates
-  | mapIdx             -- index of a Go map: reading never panics; the maps written are non-nil literals
-  | stateData          -- operand is a record read from contract storage / a static table, not payload-derived
-  | bounded            -- index bounded by the loop, length test or library contract around it, on non-payload data
-  | offPath            -- not on the path of a governance transaction
+`tools/goext partialops` follows the call graph from the admission / execution entry points, lists every
+partial operation (index, slice, unchecked type assertion, explicit panic, division, nil-able arithmetic argument,
+map write) of every reachable function, and discharges by syntax the ones guarded inside their own function
+(`Aergo.Gen.PartialOps.auto`, with the rule).  Everything else (`open_`) must have an entry here with the reason
+why it cannot crash the node on an admitted transaction:
+
+ * `trap ss`    — carried by the model as the explicit traps `ss`: the guard is in ANOTHER function (validation
+                  establishes it, execution relies on it); the totality theorems of `Props.C14` are about these;
+ * `stored inv` — decoder of a record the same contract encoded (named encoder / invariant); the harness runs it on
+                  every state it builds;
+ * `lib why`    — bound guaranteed by a library / language contract;
+ * `ctor why`   — write to a map that every constructor of the struct creates;
+ * `bounded why`— bound established by the surrounding code in a form the syntactic rules do not see;
+ * `storageErr` — explicit `panic` on a storage error or on a corrupt record (not reachable from a payload);
+ * `offPath why`— in the inventory only through the over-approximation of the call graph (method names).
+-/
+
+inductive OpClass
+  | trap (ss : List Site)
+  | stored (inv : String)
+  | lib (why : String)
+  | ctor (why : String)
+  | bounded (why : String)
+  | storageErr
+  | offPath (why : String)
 deriving DecidableEq, Repr
 
-open SiteClass Site in
-/-- Every entry the `assertsites` extractor reports for the scanned functions, with its class.
-`Props.C14.assert_sites_known` states that the keys are exactly the generated list. -/
-def knownSites : List (String × SiteClass) := [
-  ("types/transaction.go:validate:index:govValidators[string(tx.GetRecipient())]", mapIdx),
-  ("types/transaction.go:ValidateSystemTx:index:unique[encoded]", mapIdx),
-  ("types/transaction.go:ValidateSystemTx:index:unique[encoded]#1", mapIdx),
-  ("types/transaction.go:ValidateSystemTx:index:unique[encoded]#2", mapIdx),
-  ("types/transaction.go:ValidateSystemTx:index:unique[encoded]#3", mapIdx),
-  ("types/transaction.go:validateNameTx:index:ci.Args[1]", trap tNameUpdTo),
-  ("types/transaction.go:validateNameTx:index:ci.Args[0]", trap tNameOwner0),
-  ("types/transaction.go:_validateNameTx:index:ci.Args[0]", trap tNameCommon0),
-  ("types/account.go:DecodeAddressBytes:index:decodedBytes[0]", bounded),
-  ("types/account.go:DecodeAddressBytes:slice:decodedBytes[1:]", bounded),
-  ("contract/system/validation.go:ValidateSystemTx:slice:ci.Args[1:]", trap sCandSlice),
-  ("contract/system/validation.go:ValidateSystemTx:index:proposal.Candidates[i]", stateData),
-  ("contract/system/validation.go:ValidateSystemTx:index:proposal.Candidates[j]", stateData),
-  ("contract/system/validation.go:ValidateSystemTx:index:proposal.Candidates[i]#1", stateData),
-  ("contract/system/validation.go:parseIDForProposal:index:ci.Args[0]", trap sParseId0),
-  ("contract/system/vote.go:newVoteCmd:slice:ctx.Call.Args[1:]", trap vDaoSlice),
-  ("contract/system/vote.go:newVoteCmd:assert:ctx.Call.Args[0].(string)", trap vDaoId),
-  ("contract/system/vote.go:newVoteCmd:index:ctx.Call.Args[0]", trap vDaoId),
-  ("contract/system/vote.go:newVoteCmd:assert:ctx.Call.Args[1].(string)", trap vDaoVal),
-  ("contract/system/vote.go:newVoteCmd:index:ctx.Call.Args[1]", trap vDaoVal),
-  ("contract/system/vote.go:newVoteCmd:assert:v.(string)", trap vBpCand),
-  ("contract/system/vote.go:deserializeVote:slice:data[:len(data)-pos]", stateData),
-  ("contract/system/vote.go:deserializeVote:slice:data[len(data)-pos:]", stateData),
-  ("contract/system/vote.go:deserializeVote:panic:panic(\"voting data corruption\")", stateData),
-  ("contract/system/vote.go:deserializeVoteEx:slice:data[:8]", stateData),
-  ("contract/system/vote.go:deserializeVoteEx:slice:data[8 : 8+size]", stateData),
-  ("contract/system/vote.go:deserializeVoteEx:slice:data[8+size:]", stateData),
-  ("contract/system/vote.go:deserializeVoteList:slice:data[offset : offset+8]", stateData),
-  ("contract/system/vote.go:deserializeVoteList:slice:data[offset+8 : end]", stateData),
-  ("contract/system/execute.go:SystemContext.arg:index:ctx.Call.Args[i]", offPath),
-  ("contract/system/execute.go:newSysCmd:index:cmds[types.GetOpSysTx(context.Call.Name)]", mapIdx),
-  ("contract/system/execute.go:GetVotes:slice:v.Candidate[offset : offset+PeerIDLength]", offPath),
-  ("contract/system/voteresult.go:VoteResult.SubVote:index:voteResult.rmap[v]", mapIdx),
-  ("contract/system/voteresult.go:VoteResult.SubVote:index:voteResult.rmap[v]#1", trap rSubNil),
-  ("contract/system/voteresult.go:VoteResult.SubVote:slice:vote.Candidate[offset : offset+PeerIDLength]", stateData),
-  ("contract/system/voteresult.go:VoteResult.SubVote:index:voteResult.rmap[pkey]", mapIdx),
-  ("contract/system/voteresult.go:VoteResult.SubVote:index:voteResult.rmap[pkey]#1", trap rSubNil),
-  ("contract/system/voteresult.go:VoteResult.AddVote:index:voteResult.rmap[v]", mapIdx),
-  ("contract/system/voteresult.go:VoteResult.AddVote:index:voteResult.rmap[v]#1", mapIdx),
-  ("contract/system/voteresult.go:VoteResult.AddVote:index:voteResult.rmap[v]#2", mapIdx),
-  ("contract/system/voteresult.go:VoteResult.AddVote:index:voteResult.rmap[v]#3", mapIdx),
-  ("contract/system/voteresult.go:VoteResult.AddVote:slice:vote.Candidate[offset : offset+PeerIDLength]", trap rAddSlice),
-  ("contract/system/voteresult.go:VoteResult.AddVote:index:voteResult.rmap[base58.Encode(key)]", mapIdx),
-  ("contract/system/voteresult.go:VoteResult.AddVote:index:voteResult.rmap[base58.Encode(key)]#1", mapIdx),
-  ("contract/system/voteresult.go:VoteResult.AddVote:index:voteResult.rmap[base58.Encode(key)]#2", mapIdx),
-  ("contract/system/voteresult.go:VoteResult.AddVote:index:voteResult.rmap[base58.Encode(key)]#3", mapIdx),
-  ("contract/system/voteresult.go:VoteResult.Sync:index:resultList.Votes[0]", dom vDaoVal),
-  ("contract/system/voteresult.go:VoteResult.Sync:index:resultList.Votes[0]#1", dom vDaoVal),
-  ("contract/system/voteresult.go:VoteResult.threshold:panic:panic(\"failed to get staking total when calculate bp count\")", stateData),
-  ("contract/system/voteresult.go:loadVoteResult:index:voteResult.rmap[string(v.Candidate)]", mapIdx),
-  ("contract/system/voteresult.go:loadVoteResult:index:voteResult.rmap[base58.Encode(v.Candidate)]", mapIdx),
-  ("contract/system/staking.go:deserializeStaking:slice:data[:8]", stateData),
-  ("contract/system/staking.go:deserializeStaking:slice:data[8:]", stateData),
-  ("contract/name/execute.go:ExecuteNameTx:assert:ci.Args[0].(string)", trap nExCreate0),
-  ("contract/name/execute.go:ExecuteNameTx:index:ci.Args[0]", trap nExCreate0),
-  ("contract/name/execute.go:ExecuteNameTx:assert:ci.Args[0].(string)#1", trap nExUpd0),
-  ("contract/name/execute.go:ExecuteNameTx:index:ci.Args[0]#1", trap nExUpd0),
-  ("contract/name/execute.go:ExecuteNameTx:assert:ci.Args[1].(string)", trap nExUpd1),
-  ("contract/name/execute.go:ExecuteNameTx:index:ci.Args[1]", trap nExUpd1),
-  ("contract/name/execute.go:ExecuteNameTx:assert:ci.Args[0].(string)#2", trap nExOwner0),
-  ("contract/name/execute.go:ExecuteNameTx:index:ci.Args[0]#2", trap nExOwner0),
-  ("contract/name/execute.go:ValidateNameTx:assert:ci.Args[0].(string)", trap nVal0),
-  ("contract/name/execute.go:ValidateNameTx:index:ci.Args[0]", trap nVal0),
-  ("contract/name/name.go:deserializeNameMap:index:data[0]", stateData),
-  ("contract/name/name.go:deserializeNameMap:panic:panic(\"could not deserializeOwner, not supported version\")", stateData),
-  ("contract/name/name.go:deserializeNameMap:slice:data[offset:next]", stateData),
-  ("contract/name/name.go:deserializeNameMap:slice:data[offset:next]#1", stateData),
-  ("contract/name/name.go:deserializeNameMap:slice:data[offset:next]#2", stateData),
-  ("contract/name/name.go:deserializeNameMap:slice:data[offset:next]#3", stateData),
-  ("contract/enterprise/validate.go:ValidateEnterpriseTx:index:ci.Args[0]", trap eAdmin0),
-  ("contract/enterprise/validate.go:ValidateEnterpriseTx:index:ci.Args[0]#1", dom eAdmin0),
-  ("contract/enterprise/validate.go:ValidateEnterpriseTx:index:ci.Args[0]#2", dom eAdmin0),
-  ("contract/enterprise/validate.go:ValidateEnterpriseTx:index:ci.Args[0]#3", dom eAdmin0),
-  ("contract/enterprise/validate.go:ValidateEnterpriseTx:index:ci.Args[0]#4", dom eAdmin0),
-  ("contract/enterprise/validate.go:ValidateEnterpriseTx:index:ci.Args[0]#5", dom eAdmin0),
-  ("contract/enterprise/validate.go:ValidateEnterpriseTx:index:context.Args[0]", trap eCtx0),
-  ("contract/enterprise/validate.go:ValidateEnterpriseTx:slice:context.Args[1:]", trap eCtxTail),
-  ("contract/enterprise/validate.go:ValidateEnterpriseTx:index:context.Args[0]#1", trap eCtx0),
-  ("contract/enterprise/validate.go:ValidateEnterpriseTx:index:context.Args[0]#2", trap eCtx0),
-  ("contract/enterprise/validate.go:ValidateEnterpriseTx:index:context.Args[0]#3", dom eCtx0),
-  ("contract/enterprise/validate.go:ValidateEnterpriseTx:index:context.Args[1]", trap eCtx1),
-  ("contract/enterprise/validate.go:ValidateEnterpriseTx:index:context.Args[1]#1", dom eCtx1),
-  ("contract/enterprise/validate.go:ValidateEnterpriseTx:index:context.Args[1]#2", trap eCtx1),
-  ("contract/enterprise/validate.go:ValidateEnterpriseTx:index:context.Args[1]#3", dom eCtx1),
-  ("contract/enterprise/validate.go:ValidateEnterpriseTx:index:ci.Args[0]#6", trap eEnable0),
-  ("contract/enterprise/validate.go:ValidateEnterpriseTx:index:enterpriseKeyDict[strings.ToUpper(ci.Args[0].(string))]", mapIdx),
-  ("contract/enterprise/validate.go:ValidateEnterpriseTx:assert:ci.Args[0].(string)", trap eEnable0),
-  ("contract/enterprise/validate.go:ValidateEnterpriseTx:index:ci.Args[0]#7", trap eEnable0),
-  ("contract/enterprise/validate.go:ValidateEnterpriseTx:index:ci.Args[0]#8", dom eEnable0),
-  ("contract/enterprise/validate.go:ValidateEnterpriseTx:index:ci.Args[1]", trap eEnable1),
-  ("contract/enterprise/validate.go:checkArgs:index:ci.Args[0]", trap eCheckArgs0),
-  ("contract/enterprise/validate.go:checkArgs:index:enterpriseKeyDict[key]", mapIdx),
-  ("contract/enterprise/validate.go:checkArgs:index:ci.Args[0]#1", dom eCheckArgs0),
-  ("contract/enterprise/validate.go:checkArgs:index:unique[arg]", mapIdx),
-  ("contract/enterprise/validate.go:checkArgs:index:unique[arg]#1", mapIdx),
-  ("contract/enterprise/validate.go:checkRPCPermissions:index:values[0]", trap eRpcVals0),
-  ("contract/enterprise/changecluster.go:ValidateChangeCluster:index:ci.Args[0]", trap eCc0),
-  ("contract/enterprise/changecluster.go:ValidateChangeCluster:index:ci.Args[0]#1", dom eCc0),
-  ("contract/enterprise/changecluster.go:CcArgument.get:index:cc[key]", mapIdx),
-  ("contract/enterprise/changecluster.go:CcArgument.getUint64:index:cc[key]", mapIdx),
-  ("contract/enterprise/execute.go:ExecuteEnterpriseTx:index:context.Args[0]", trap xCtx0),
-  ("contract/enterprise/execute.go:ExecuteEnterpriseTx:index:context.Args[0]#1", dom xCtx0),
-  ("contract/enterprise/execute.go:ExecuteEnterpriseTx:index:context.Args[0]#2", trap xCtx0),
-  ("contract/enterprise/execute.go:ExecuteEnterpriseTx:slice:context.Admins[:i]", bounded),
-  ("contract/enterprise/execute.go:ExecuteEnterpriseTx:slice:context.Admins[i+1:]", bounded),
-  ("contract/enterprise/execute.go:ExecuteEnterpriseTx:index:context.Args[0]#3", dom xCtx0),
-  ("contract/enterprise/execute.go:ExecuteEnterpriseTx:index:context.Args[0]#4", trap xCtx0),
-  ("contract/enterprise/execute.go:ExecuteEnterpriseTx:index:context.Args[0]#5", trap xCtx0),
-  ("contract/enterprise/execute.go:ExecuteEnterpriseTx:index:context.Call.Args[1]", trap xEnable1),
-  ("contract/enterprise/execute.go:ExecuteEnterpriseTx:index:context.ArgsAny[0]", trap xAny0),
-  ("contract/enterprise/admin.go:getAdmins:slice:data[i : i+types.AddressLength]", trap gAdmins),
-  ("contract/enterprise/config.go:Conf.RemoveValue:slice:c.Values[:i]", bounded),
-  ("contract/enterprise/config.go:Conf.RemoveValue:slice:c.Values[i+1:]", bounded),
-  ("contract/enterprise/config.go:Conf.Validate:index:strings.Split(v, \":\")[1]", trap cRpcSplit),
-  ("contract/enterprise/config.go:deserializeConf:slice:strings.Split(string(data), \"\\\\\")[1:]", bounded),
-  ("contract/enterprise/config.go:deserializeConf:index:data[0]", stateData),
-  ("mempool/mempool.go:MemPool.validateTx:assert:rsp.(message.CheckFeeDelegationRsp)", offPath)
+open OpClass Site in
+/-- `(key, occurrences in the function, class)` for every open partial operation of the current source.
+`Props.C14.every_open_op_accounted`: each generated `(key, n)` has an entry with the same count. -/
+def openOps : List (String × Nat × OpClass) := [
+  ("types/account.go:DecodeAddressBytes:index:<[]byte>[0]", 1, lib "base58check.Decode returns at least the version byte or an error (checked in the library source)"),
+  ("types/account.go:DecodeAddressBytes:slice:<[]byte>[1:]", 1, lib "base58check.Decode returns at least the version byte or an error (checked in the library source)"),
+  ("types/blockchain.go:AvgTime.Get:assert:aopv.(time.Duration)", 1, offPath "block producer signing-time statistics (reached only through the method-name over-approximation Get/Add)"),
+  ("types/blockchain.go:AvgTime.Get:panic:panic(\"AvgTxSignTime is not set\")", 1, offPath "block producer signing-time statistics (reached only through the method-name over-approximation Get/Add)"),
+  ("types/blockchain.go:MovingAverage.Add:div:(<*MovingAverage>.curPos + 1) % <*MovingAverage>.size", 1, offPath "block producer signing-time statistics (reached only through the method-name over-approximation Get/Add)"),
+  ("types/blockchain.go:MovingAverage.Add:index:<*MovingAverage>.values[<*MovingAverage>.curPos]", 2, offPath "block producer signing-time statistics (reached only through the method-name over-approximation Get/Add)"),
+  ("types/blockchain.go:MovingAverage.calculateAvg:index:<*MovingAverage>.values[<*MovingAverage>.curPos]", 1, offPath "block producer signing-time statistics (reached only through the method-name over-approximation Get/Add)"),
+  ("types/blockchain.go:MovingAverage.calculateAvg:div:<*MovingAverage>.sum / int64(<*MovingAverage>.count)", 1, offPath "block producer signing-time statistics (reached only through the method-name over-approximation Get/Add)"),
+  ("types/logging.go:LogPeerShort.String:slice:pretty[len(pretty)-6:]", 1, offPath "p2p log formatting"),
+  ("types/quirk.go:putTxID:mapwrite:quirkTxMap[id]", 1, ctor "the map is created by the constructor of its struct / by make in the package initialiser (newVoteResult, newVprStore, newTopVoters, newVpr, systemParams literal, initSysCmd)"),
+  ("types/raft.go:ConfChangeProgress.ToString:index:ConfChangeState_name[int32(<*ConfChangeProgress>.State)]", 1, lib "protobuf-generated enum name table: a map read"),
+  ("types/raft.go:RaftConfChangeToString:index:raftpb.ConfChangeType_name[int32(<*raftpb.ConfChange>.Type)]", 1, lib "protobuf-generated enum name table: a map read"),
+  ("types/raft.go:MembershipChange.ToString:index:MembershipChangeType_name[int32(<*MembershipChange>.Type)]", 1, lib "protobuf-generated enum name table: a map read"),
+  ("types/receipt.go:NewReceipt:slice:<[]byte>[:33]", 1, bounded "AccountState.ID() pads every id to 33 bytes"),
+  ("types/receipt.go:Receipt.marshalBody:slice:<[]byte>[:4]", 8, bounded "l := make([]byte, 8) in the same function"),
+  ("types/receipt.go:Receipt.marshalBodyV2:slice:<[]byte>[:4]", 8, bounded "l := make([]byte, 8) in the same function"),
+  ("types/receipt.go:AddressPadding:index:<[]byte>[0]", 1, bounded "id := make([]byte, AddressLength) in the same function"),
+  ("types/receipt.go:AddressPadding:slice:<[]byte>[1:]", 1, bounded "id := make([]byte, AddressLength) in the same function"),
+  ("types/rpc.go:ConfigItem.Add:index:<*ConfigItem>.Props[<string>]", 1, offPath "RPC config reply (method name Add)"),
+  ("types/vote.go:initSysCmd:mapwrite:cmdToOp[i.Cmd()]", 1, ctor "the map is created by the constructor of its struct / by make in the package initialiser (newVoteResult, newVprStore, newTopVoters, newVpr, systemParams literal, initSysCmd)"),
+  ("types/vote.go:OpSysTx.ID:slice:<OpSysTx>.String()[prefixLen:]", 1, bounded "op < OpSysTxMax is tested above; every stringer name starts with Op"),
+  ("fee/gas.go:CalcGas:div:new(big.Int).Div(<*big.Int>, <*big.Int>)", 1, trap [fCalcGas]),
+  ("mempool/mempool.go:MemPool.validateTx:assert:rsp.(message.CheckFeeDelegationRsp)", 1, trap [pFdRsp]),
+  ("mempool/stub.go:getNonceByAccMock:mapwrite:nonce[<string>]", 1, ctor "the map is created by the constructor of its struct / by make in the package initialiser (newVoteResult, newVprStore, newTopVoters, newVpr, systemParams literal, initSysCmd)"),
+  ("mempool/stub.go:getBalanceByAccMock:mapwrite:balance[<string>]", 1, ctor "the map is created by the constructor of its struct / by make in the package initialiser (newVoteResult, newVprStore, newTopVoters, newVpr, systemParams literal, initSysCmd)"),
+  ("mempool/whitelist.go:whitelistConf.Check:index:<*whitelistConf>.whitelist[<string>]", 1, lib "whitelist is a map field: a map read"),
+  ("chain/chainhandle.go:adjustRv:slice:<string>[:maxRetSize-4]", 1, bounded "len(ret) > maxRetSize is tested on the line above"),
+  ("chain/debugger.go:StopCond.String:index:stopConds[<StopCond>]", 1, offPath "debugger conditions (method names Check/String)"),
+  ("chain/debugger.go:Debugger.Check:index:stopConds[<StopCond>]", 2, offPath "debugger conditions (method names Check/String)"),
+  ("contract/system/param.go:parameters.setNextBlockParam:mapwrite:<*parameters>.params[nextBlockParamKey(<string>)]", 1, ctor "the map is created by the constructor of its struct / by make in the package initialiser (newVoteResult, newVprStore, newTopVoters, newVpr, systemParams literal, initSysCmd)"),
+  ("contract/system/staking.go:deserializeStaking:slice:<[]byte>[:8]", 1, stored "written by serializeStaking; read by every system transaction the harness executes"),
+  ("contract/system/staking.go:deserializeStaking:slice:<[]byte>[8:]", 1, stored "written by serializeStaking; read by every system transaction the harness executes"),
+  ("contract/system/validation.go:ValidateSystemTx:slice:<types.CallInfo>.Args[1:]", 1, trap [sCandSlice]),
+  ("contract/system/validation.go:ValidateSystemTx:index:proposal.Candidates[<int>]", 3, bounded "indices supplied by sort.Slice / guarded by i < len; the four system proposals have no candidate list"),
+  ("contract/system/validation.go:parseIDForProposal:index:<*types.CallInfo>.Args[0]", 1, trap [sParseId0]),
+  ("contract/system/vote.go:newVoteCmd:slice:<*SystemContext>.Call.Args[1:]", 1, trap [vDaoSlice]),
+  ("contract/system/vote.go:newVoteCmd:assert:<*SystemContext>.Call.Args[0].(string)", 1, trap [vDaoId]),
+  ("contract/system/vote.go:newVoteCmd:index:<*SystemContext>.Call.Args[0]", 1, trap [vDaoId]),
+  ("contract/system/vote.go:newVoteCmd:assert:<*SystemContext>.Call.Args[1].(string)", 1, trap [vDaoVal]),
+  ("contract/system/vote.go:newVoteCmd:index:<*SystemContext>.Call.Args[1]", 1, trap [vDaoVal]),
+  ("contract/system/vote.go:newVoteCmd:assert:v.(string)", 1, trap [vBpCand]),
+  ("contract/system/vote.go:deserializeVote:slice:<[]byte>[:len(<[]byte>)-pos]", 1, stored "written by serializeVote/serializeVoteEx/serializeVoteList of the same file; read by every vote/unstake the harness executes"),
+  ("contract/system/vote.go:deserializeVote:slice:<[]byte>[len(<[]byte>)-pos:]", 1, stored "written by serializeVote/serializeVoteEx/serializeVoteList of the same file; read by every vote/unstake the harness executes"),
+  ("contract/system/vote.go:deserializeVote:panic:panic(\"voting data corruption\")", 1, stored "written by serializeVote/serializeVoteEx/serializeVoteList of the same file; read by every vote/unstake the harness executes"),
+  ("contract/system/vote.go:deserializeVoteEx:slice:<[]byte>[:8]", 1, stored "written by serializeVote/serializeVoteEx/serializeVoteList of the same file; read by every vote/unstake the harness executes"),
+  ("contract/system/vote.go:deserializeVoteEx:slice:<[]byte>[8 : 8+size]", 1, stored "written by serializeVote/serializeVoteEx/serializeVoteList of the same file; read by every vote/unstake the harness executes"),
+  ("contract/system/vote.go:deserializeVoteEx:slice:<[]byte>[8+size:]", 1, stored "written by serializeVote/serializeVoteEx/serializeVoteList of the same file; read by every vote/unstake the harness executes"),
+  ("contract/system/vote.go:deserializeVoteList:slice:<[]byte>[offset : offset+8]", 1, stored "written by serializeVote/serializeVoteEx/serializeVoteList of the same file; read by every vote/unstake the harness executes"),
+  ("contract/system/vote.go:deserializeVoteList:slice:<[]byte>[offset+8 : <int>]", 1, stored "written by serializeVote/serializeVoteEx/serializeVoteList of the same file; read by every vote/unstake the harness executes"),
+  ("contract/system/voteresult.go:VoteResult.SubVote:mapwrite:<*VoteResult>.rmap[v]", 1, ctor "the map is created by the constructor of its struct / by make in the package initialiser (newVoteResult, newVprStore, newTopVoters, newVpr, systemParams literal, initSysCmd)"),
+  ("contract/system/voteresult.go:VoteResult.SubVote:nilarg:<*VoteResult>.rmap[v]", 1, trap [rSubNil]),
+  ("contract/system/voteresult.go:VoteResult.SubVote:slice:<*types.Vote>.Candidate[offset : offset+PeerIDLength]", 1, stored "old BP vote record = whole 39-byte ids: invariant OldVotesOk (hypothesis of the execution theorems; broken only through the known finding rAddSlice)"),
+  ("contract/system/voteresult.go:VoteResult.SubVote:mapwrite:<*VoteResult>.rmap[pkey]", 1, ctor "the map is created by the constructor of its struct / by make in the package initialiser (newVoteResult, newVprStore, newTopVoters, newVpr, systemParams literal, initSysCmd)"),
+  ("contract/system/voteresult.go:VoteResult.SubVote:nilarg:<*VoteResult>.rmap[pkey]", 1, trap [rSubNil]),
+  ("contract/system/voteresult.go:VoteResult.AddVote:mapwrite:<*VoteResult>.rmap[v]", 2, ctor "the map is created by the constructor of its struct / by make in the package initialiser (newVoteResult, newVprStore, newTopVoters, newVpr, systemParams literal, initSysCmd)"),
+  ("contract/system/voteresult.go:VoteResult.AddVote:slice:<*types.Vote>.Candidate[offset : offset+PeerIDLength]", 1, trap [rAddSlice]),
+  ("contract/system/voteresult.go:VoteResult.AddVote:mapwrite:<*VoteResult>.rmap[base58.Encode(key)]", 2, ctor "the map is created by the constructor of its struct / by make in the package initialiser (newVoteResult, newVprStore, newTopVoters, newVpr, systemParams literal, initSysCmd)"),
+  ("contract/system/voteresult.go:VoteResult.Sync:index:resultList.Votes[0]", 2, trap [rSyncTop]),
+  ("contract/system/voteresult.go:VoteResult.threshold:panic:panic(\"failed to get staking total when calculate bp count\")", 1, storageErr),
+  ("contract/system/voteresult.go:VoteResult.threshold:div:new(big.Int).Div(total, unit)", 1, trap [rThreshDiv]),
+  ("contract/system/voteresult.go:loadVoteResult:mapwrite:voteResult.rmap[string(v.Candidate)]", 1, ctor "the map is created by the constructor of its struct / by make in the package initialiser (newVoteResult, newVprStore, newTopVoters, newVpr, systemParams literal, initSysCmd)"),
+  ("contract/system/voteresult.go:loadVoteResult:mapwrite:voteResult.rmap[base58.Encode(v.Candidate)]", 1, ctor "the map is created by the constructor of its struct / by make in the package initialiser (newVoteResult, newVprStore, newTopVoters, newVpr, systemParams literal, initSysCmd)"),
+  ("contract/system/vprt.go:vprStore.update:mapwrite:<*vprStore>.buckets[<uint8>]", 1, ctor "the map is created by the constructor of its struct / by make in the package initialiser (newVoteResult, newVprStore, newTopVoters, newVpr, systemParams literal, initSysCmd)"),
+  ("contract/system/vprt.go:remove:assert:<*list.List>.Remove(e).(*votingPower)", 1, bounded "only *votingPower values are put into the bucket lists and the rank tree (vprStore.update/addTail, topVoters.update)"),
+  ("contract/system/vprt.go:getBucketIdx:index:<types.AccountID>[0]", 1, lib "types.AccountID is a [32]byte array"),
+  ("contract/system/vprt.go:topVoters.set:mapwrite:<*topVoters>.powers[<types.AccountID>]", 1, ctor "the map is created by the constructor of its struct / by make in the package initialiser (newVoteResult, newVprStore, newTopVoters, newVpr, systemParams literal, initSysCmd)"),
+  ("contract/system/vprt.go:topVoters.lowest:assert:lowest.Value.(*votingPower)", 1, bounded "only *votingPower values are put into the bucket lists and the rank tree (vprStore.update/addTail, topVoters.update)"),
+  ("contract/system/vprt.go:vpr.prepare:mapwrite:<*vpr>.changes[<types.AccountID>]", 1, ctor "the map is created by the constructor of its struct / by make in the package initialiser (newVoteResult, newVprStore, newTopVoters, newVpr, systemParams literal, initSysCmd)"),
+  ("contract/system/vprt.go:toVotingPower:assert:<*list.Element>.Value.(*votingPower)", 1, bounded "only *votingPower values are put into the bucket lists and the rank tree (vprStore.update/addTail, topVoters.update)"),
+  ("contract/name/execute.go:ExecuteNameTx:assert:ci.Args[0].(string)", 3, trap [nExCreate0, nExUpd0, nExOwner0]),
+  ("contract/name/execute.go:ExecuteNameTx:index:ci.Args[0]", 3, trap [nExCreate0, nExUpd0, nExOwner0]),
+  ("contract/name/execute.go:ExecuteNameTx:assert:ci.Args[1].(string)", 1, trap [nExUpd1]),
+  ("contract/name/execute.go:ExecuteNameTx:index:ci.Args[1]", 1, trap [nExUpd1]),
+  ("contract/name/execute.go:ValidateNameTx:assert:<types.CallInfo>.Args[0].(string)", 1, trap [nVal0]),
+  ("contract/name/execute.go:ValidateNameTx:index:<types.CallInfo>.Args[0]", 1, trap [nVal0]),
+  ("contract/name/name.go:deserializeNameMap:index:<[]byte>[0]", 1, stored "written by serializeNameMap (version 1, two length-prefixed fields); absent key = nil; read for every name sender/recipient the harness resolves"),
+  ("contract/name/name.go:deserializeNameMap:panic:panic(\"could not deserializeOwner, not supported version\")", 1, stored "written by serializeNameMap (version 1, two length-prefixed fields); absent key = nil; read for every name sender/recipient the harness resolves"),
+  ("contract/name/name.go:deserializeNameMap:slice:<[]byte>[offset:next]", 4, stored "written by serializeNameMap (version 1, two length-prefixed fields); absent key = nil; read for every name sender/recipient the harness resolves"),
+  ("contract/enterprise/admin.go:getAdmins:slice:data[i : i+types.AddressLength]", 1, trap [gAdmins]),
+  ("contract/enterprise/changecluster.go:CcArgument.get:index:<CcArgument>[<string>]", 1, lib "CcArgument is a named map type: a map read"),
+  ("contract/enterprise/config.go:Conf.RemoveValue:slice:<*Conf>.Values[:i]", 1, bounded "i is the range index of c.Values"),
+  ("contract/enterprise/config.go:Conf.RemoveValue:slice:<*Conf>.Values[i+1:]", 1, bounded "i is the range index of c.Values"),
+  ("contract/enterprise/config.go:Conf.Validate:index:strings.Split(v, \":\")[1]", 1, trap [cRpcSplit]),
+  ("contract/enterprise/config.go:deserializeConf:slice:strings.Split(string(<[]byte>), \"\\\\\")[1:]", 1, lib "strings.Split returns at least one element"),
+  ("contract/enterprise/config.go:deserializeConf:index:<[]byte>[0]", 1, stored "written by serializeConf (first byte = on flag); nil data is tested before"),
+  ("contract/enterprise/execute.go:ExecuteEnterpriseTx:index:context.Args[0]", 6, trap [xCtx0]),
+  ("contract/enterprise/execute.go:ExecuteEnterpriseTx:slice:context.Admins[:i]", 1, bounded "i is the range index of context.Admins"),
+  ("contract/enterprise/execute.go:ExecuteEnterpriseTx:slice:context.Admins[i+1:]", 1, bounded "i is the range index of context.Admins"),
+  ("contract/enterprise/execute.go:ExecuteEnterpriseTx:index:context.Call.Args[1]", 1, trap [xEnable1]),
+  ("contract/enterprise/execute.go:ExecuteEnterpriseTx:index:context.ArgsAny[0]", 1, trap [xAny0]),
+  ("contract/enterprise/validate.go:ValidateEnterpriseTx:index:<*EnterpriseContext>.Args[0]", 4, trap [eCtx0]),
+  ("contract/enterprise/validate.go:ValidateEnterpriseTx:slice:<*EnterpriseContext>.Args[1:]", 1, trap [eCtxTail]),
+  ("contract/enterprise/validate.go:ValidateEnterpriseTx:index:<*EnterpriseContext>.Args[1]", 4, trap [eCtx1]),
+  ("contract/enterprise/validate.go:ValidateEnterpriseTx:assert:<types.CallInfo>.Args[0].(string)", 1, trap [eEnable0]),
+  ("contract/enterprise/validate.go:checkArgs:index:<*types.CallInfo>.Args[0]", 2, trap [eCheckArgs0]),
+  ("state/block.go:BlockState.AddReceipt:slice:binary[24:]", 1, lib "bloom GobEncode output starts with a 24-byte header"),
+  ("consensus/raftCommon.go:Member.CalculateMemberID:slice:hash[:8]", 1, lib "sha1.Sum-style fixed-size digest"),
+  ("consensus/impl/raftv2/blockfactory.go:GetName:index:consensus.ConsensusName[consensus.ConsensusRAFT]", 1, lib "static table indexed by a constant"),
+  ("consensus/impl/raftv2/raftlogger.go:defaultArgsFormat:slice:f[:len(f)-1]", 1, offPath "raft log formatting"),
+  ("consensus/impl/raftv2/raftserver.go:raftServer.GetClusterProgress:mapwrite:<ClusterProgress>.MemberProgresses[id]", 1, ctor "the map is created by the constructor of its struct / by make in the package initialiser (newVoteResult, newVprStore, newTopVoters, newVpr, systemParams literal, initSysCmd)")
+]
+
+open OpClass Site in
+/-- Traps of the model whose Go expression is today guarded inside its own function (the extractor discharges it:
+rule `lenguard`).  Kept so that every trap stays anchored to its source expression; the model still carries the
+trap and proves the guard sufficient. -/
+def guardedInSource : List (String × Nat × OpClass) := [
+  ("types/transaction.go:validateNameTx:index:<CallInfo>.Args[1]", 1, trap [tNameUpdTo]),
+  ("types/transaction.go:validateNameTx:index:<CallInfo>.Args[0]", 1, trap [tNameOwner0]),
+  ("types/transaction.go:_validateNameTx:index:<*CallInfo>.Args[0]", 1, trap [tNameCommon0]),
+  ("types/vote.go:VoteList.Less:slice:<VoteList>.Votes[<int>].Candidate[7:]", 2, trap [tLessSlice]),
+  ("contract/enterprise/validate.go:ValidateEnterpriseTx:index:<types.CallInfo>.Args[0]", 9, trap [eAdmin0, eEnable0]),
+  ("contract/enterprise/validate.go:ValidateEnterpriseTx:index:<types.CallInfo>.Args[1]", 1, trap [eEnable1]),
+  ("contract/enterprise/validate.go:checkRPCPermissions:index:values[0]", 1, trap [eRpcVals0]),
+  ("contract/enterprise/changecluster.go:ValidateChangeCluster:index:<types.CallInfo>.Args[0]", 2, trap [eCc0])
+
 ]
 
 open Site in
 /-- All constructors of `Site`. -/
 def allSites : List Site := [tNameUpdTo, tNameOwner0, tNameCommon0, sParseId0, sCandSlice, vDaoSlice, vDaoId, vDaoVal, vBpCand,
   rAddSlice, rSubNil, nVal0, nExCreate0, nExUpd0, nExUpd1, nExOwner0, eAdmin0, eEnable0, eEnable1, eCtx0, eCtxTail, eCtx1,
-  eCheckArgs0, eRpcVals0, eCc0, cRpcSplit, gAdmins, xCtx0, xEnable1, xAny0]
+  eCheckArgs0, eRpcVals0, eCc0, cRpcSplit, gAdmins, xCtx0, xEnable1, xAny0, rSyncTop, rThreshDiv, tLessSlice, fCalcGas, pFdRsp]
 
-/-- The functions the extractor is asked to scan (`tools/props.d/C14.json`). -/
-def knownScanned : List String := [
-  "types/transaction.go:transaction.Validate", "types/transaction.go:validate", "types/transaction.go:ValidateSystemTx",
-  "types/transaction.go:validateNameTx", "types/transaction.go:_validateNameTx", "types/transaction.go:transaction.ValidateWithSenderState",
-  "types/transaction.go:validateAllowedChar",
-  "types/account.go:ToAddress", "types/account.go:DecodeAddress", "types/account.go:DecodeAddressBytes",
-  "contract/system/validation.go:ValidateSystemTx", "contract/system/validation.go:checkStakingBefore",
-  "contract/system/validation.go:validateForStaking", "contract/system/validation.go:validateForVote",
-  "contract/system/validation.go:validateForUnstaking", "contract/system/validation.go:parseIDForProposal",
-  "contract/system/validation.go:validateById",
-  "contract/system/vote.go:init", "contract/system/vote.go:initVotingCatalog", "contract/system/vote.go:GetVotingCatalog",
-  "contract/system/vote.go:newVprCmd", "contract/system/vote.go:vprCmd.subVpr", "contract/system/vote.go:vprCmd.addVpr",
-  "contract/system/vote.go:newVoteCmd", "contract/system/vote.go:voteCmd.run", "contract/system/vote.go:voteCmd.updateVote",
-  "contract/system/vote.go:voteCmd.updateVoteResult", "contract/system/vote.go:refreshAllVote", "contract/system/vote.go:GetVote",
-  "contract/system/vote.go:getVote", "contract/system/vote.go:setVote", "contract/system/vote.go:BuildOrderedCandidates",
-  "contract/system/vote.go:GetVoteResult", "contract/system/vote.go:GetRankers", "contract/system/vote.go:serializeVoteList",
-  "contract/system/vote.go:serializeVote", "contract/system/vote.go:serializeVoteEx", "contract/system/vote.go:deserializeVote",
-  "contract/system/vote.go:deserializeVoteEx", "contract/system/vote.go:deserializeVoteList",
-  "contract/system/execute.go:newSystemContext", "contract/system/execute.go:SystemContext.arg",
-  "contract/system/execute.go:SystemContext.updateStaking", "contract/system/execute.go:newSysCmd",
-  "contract/system/execute.go:ExecuteSystemTx", "contract/system/execute.go:GetVotes",
-  "contract/system/voteresult.go:VoteResult.SubVote", "contract/system/voteresult.go:VoteResult.AddVote",
-  "contract/system/voteresult.go:VoteResult.Sync", "contract/system/voteresult.go:VoteResult.threshold",
-  "contract/system/voteresult.go:loadVoteResult",
-  "contract/system/staking.go:newStakeCmd", "contract/system/staking.go:stakeCmd.run", "contract/system/staking.go:newUnstakeCmd",
-  "contract/system/staking.go:unstakeCmd.run", "contract/system/staking.go:deserializeStaking",
-  "contract/name/execute.go:ExecuteNameTx", "contract/name/execute.go:ValidateNameTx", "contract/name/execute.go:SetContractOwner",
-  "contract/name/name.go:CreateName", "contract/name/name.go:UpdateName", "contract/name/name.go:deserializeNameMap",
-  "contract/enterprise/validate.go:ValidateEnterpriseTx", "contract/enterprise/validate.go:checkAdmin",
-  "contract/enterprise/validate.go:checkArgs", "contract/enterprise/validate.go:checkP2PBlackWhite",
-  "contract/enterprise/validate.go:checkAccountWhite", "contract/enterprise/validate.go:checkRPCPermissions",
-  "contract/enterprise/validate.go:checkNone",
-  "contract/enterprise/changecluster.go:ValidateChangeCluster", "contract/enterprise/changecluster.go:CcArgument.get",
-  "contract/enterprise/changecluster.go:CcArgument.getUint64", "contract/enterprise/changecluster.go:CcArgument.parse",
-  "contract/enterprise/execute.go:init", "contract/enterprise/execute.go:EnterpriseContext.IsAdminExist",
-  "contract/enterprise/execute.go:EnterpriseContext.HasConfValue", "contract/enterprise/execute.go:ExecuteEnterpriseTx",
-  "contract/enterprise/execute.go:createSetEvent",
-  "contract/enterprise/admin.go:setAdmins", "contract/enterprise/admin.go:getAdmins",
-  "contract/enterprise/config.go:Conf.RemoveValue", "contract/enterprise/config.go:Conf.Validate",
-  "contract/enterprise/config.go:enableConf", "contract/enterprise/config.go:getConf",
-  "contract/enterprise/config.go:setConfValues", "contract/enterprise/config.go:deserializeConf",
-  "mempool/mempool.go:MemPool.put", "mempool/mempool.go:MemPool.verifyTx", "mempool/mempool.go:MemPool.getNameDest",
-  "mempool/mempool.go:MemPool.validateTx",
-  "chain/chainhandle.go:executeTx", "chain/governance.go:executeGovernanceTx"
+/-- The dispatch points of the current source (command names, system operations, transaction types, recipients):
+`(file:func:switch tag, sorted case labels)`.  The model's `typesValidate`, `senderType`, `poolOther`, `typesName`,
+`nameState`, `nameExecArgs`, `entValidate`, `entExecArgs`, `getOpSysTx`, `sysValidate` branch on exactly these. -/
+def knownDispatch : List (String × String) := [
+  ("types/transaction.go:transaction.Validate:switch tx.GetBody().Type", "TxType_CALL TxType_DEPLOY TxType_FEEDELEGATION TxType_GOVERNANCE TxType_MULTICALL TxType_NORMAL TxType_REDEPLOY TxType_TRANSFER default"),
+  ("types/transaction.go:ValidateSystemTx:switch op", "Opstake Opunstake OpvoteBP OpvoteDAO default"),
+  ("types/transaction.go:validateNameTx:switch ci.Name", "NameCreate NameUpdate SetContractOwner default"),
+  ("types/transaction.go:transaction.ValidateWithSenderState:switch tx.GetBody().GetType()", "TxType_CALL TxType_DEPLOY TxType_FEEDELEGATION TxType_GOVERNANCE TxType_NORMAL TxType_REDEPLOY TxType_TRANSFER"),
+  ("types/transaction.go:transaction.ValidateWithSenderState:switch string(tx.GetBody().GetRecipient())", "AergoEnterprise AergoName AergoSystem default"),
+  ("mempool/mempool.go:MemPool.validateTx:switch tx.GetBody().GetType()", "types.TxType_CALL types.TxType_DEPLOY types.TxType_FEEDELEGATION types.TxType_GOVERNANCE types.TxType_MULTICALL types.TxType_NORMAL types.TxType_REDEPLOY types.TxType_TRANSFER"),
+  ("mempool/mempool.go:MemPool.validateTx:switch string(tx.GetBody().GetRecipient())", "types.AergoEnterprise types.AergoName types.AergoSystem"),
+  ("chain/chainhandle.go:executeTx:switch txBody.Type", "types.TxType_CALL types.TxType_DEPLOY types.TxType_FEEDELEGATION types.TxType_GOVERNANCE types.TxType_MULTICALL types.TxType_NORMAL types.TxType_REDEPLOY types.TxType_TRANSFER"),
+  ("contract/system/execute.go:newSysCmd:table map[types.OpSysTx]sysCmdCtor", "types.Opstake types.Opunstake types.OpvoteBP types.OpvoteDAO"),
+  ("contract/system/validation.go:ValidateSystemTx:switch context.op", "default types.Opstake types.Opunstake types.OpvoteBP types.OpvoteDAO"),
+  ("contract/name/execute.go:ExecuteNameTx:switch ci.Name", "types.NameCreate types.NameUpdate types.SetContractOwner"),
+  ("contract/name/execute.go:ValidateNameTx:switch ci.Name", "default types.NameCreate types.NameUpdate types.SetContractOwner"),
+  ("contract/enterprise/execute.go:ExecuteEnterpriseTx:switch context.Call.Name", "AppendAdmin AppendConf ChangeCluster EnableConf RemoveAdmin RemoveConf SetConf default"),
+  ("contract/enterprise/validate.go:ValidateEnterpriseTx:switch ci.Name", "AppendAdmin AppendConf ChangeCluster EnableConf RemoveAdmin RemoveConf SetConf default"),
+  ("consensus/impl/raftv2/cluster.go:Cluster.makeProposal:switch req.Type", "default types.MembershipChangeType_ADD_MEMBER types.MembershipChangeType_REMOVE_MEMBER"),
+  ("consensus/impl/raftv2/cluster.go:Cluster.validateChangeMembership:switch cc.Type", "default raftpb.ConfChangeAddNode raftpb.ConfChangeRemoveNode")
 ]
 
 end Aergo.Admit
